@@ -4,7 +4,7 @@
    while unread bytes remain) over ONE segmentation `chunks` of the stream `concat chunks`; the
    theorems quantify over all segmentations, with no bound on stream length or chunk count. *)
 From OlaBase Require Import Bytes.
-From C10 Require Import Gen Model Lemmas ProofsRecv ProofsUsb ProofsRobe ProofsOpc ProofsAcn ProofsAcnRef Schedule ProofsSched ProofsSchedOpc ProofsOpcFast ProofsRpc.
+From C10 Require Import Gen Model Lemmas ProofsRecv ProofsUsb ProofsRobe ProofsOpc ProofsAcn ProofsAcnRef Schedule ProofsSched ProofsSchedOpc ProofsOpcFast ProofsOpcReg ProofsRpc.
 Local Open Scope N_scope.
 
 (* Side obligations: the constants regenerated from the headers are the numbers used by the
@@ -89,30 +89,41 @@ Print Assumptions c10_robe_bounds.
    partition, the channel callbacks receive exactly the frames of the whole stream, in order — so
    back-to-back frames in one read are all delivered and a read ending inside the next frame loses
    nothing; no store or copy outside the (growing) receive buffer. *)
-Theorem c10_opc_chunk_free : forall (stream : list N) (chunks : list (list N)),
+Theorem c10_opc_chunk_free : forall (reg : N -> bool) (stream : list N) (chunks : list (list N)),
   concat chunks = stream -> bytes_ok stream = true ->
-  exists f, feed f_recv f_init chunks = Done f (ref_opc stream).
-Proof. intros stream chunks H Hb. rewrite <- H in *. exact (opcf_chunk_free chunks Hb). Qed.
+  exists f, feed (f_recv reg) f_init chunks = Done f (ref_opc reg stream).
+Proof. intros reg stream chunks H Hb. rewrite <- H in *. exact (opcf_chunk_free reg chunks Hb). Qed.
 Print Assumptions c10_opc_chunk_free.
+
+(* `reg ch` says whether a callback is registered for channel ch (any set of channels, channel 0
+   included).  The configuration of the receiving side changes exactly this: the frames of
+   unregistered channels disappear from the delivered sequence; the frames read alongside them — later
+   complete frames, the head of a straddling frame — are unaffected, under every partition (by the
+   theorem above the machine delivers ref_opc reg, which is the all-channels sequence filtered). *)
+Theorem c10_opc_unregistered_skipped : forall (reg : N -> bool) (stream : list N),
+  bytes_ok stream = true ->
+  ref_opc reg stream = filter (fun m => reg (fst m / 256)) (ref_opc (fun _ => true) stream).
+Proof. intros reg stream H. exact (ref_opc_filter reg stream H). Qed.
+Print Assumptions c10_opc_unregistered_skipped.
 
 (* f_recv (reversed buffer + offset + cached expected size; the function the correspondence runs) and
    the plain model o_recv (flat buffer, every branch of SocketReady/CheckSize spelled out) compute the
    same thing on every call: same deliveries, same unread bytes, same hazard, related states. *)
-Theorem c10_opc_fast_refines : forall f av, f_inv f ->
-  match f_recv f av with
-  | Some (f1, r, o) => o_recv (o_abs f) av = Some (o_abs f1, r, o) /\ f_inv f1
-  | None => o_recv (o_abs f) av = None
+Theorem c10_opc_fast_refines : forall (reg : N -> bool) f av, f_inv f ->
+  match f_recv reg f av with
+  | Some (f1, r, o) => o_recv reg (o_abs f) av = Some (o_abs f1, r, o) /\ f_inv f1
+  | None => o_recv reg (o_abs f) av = None
   end.
 Proof. exact f_recv_sim. Qed.
 Print Assumptions c10_opc_fast_refines.
 
 (* In every reachable state the buffer has room for at least one more byte (so SocketReady always
    makes progress) and its capacity never exceeds the largest frame, 65535 + 4. *)
-Theorem c10_opc_bounds : forall chunks f out,
+Theorem c10_opc_bounds : forall (reg : N -> bool) chunks f out,
   bytes_ok (concat chunks) = true ->
-  feed f_recv f_init chunks = Done f out ->
+  feed (f_recv reg) f_init chunks = Done f out ->
   f_off f = len (f_rdata f) /\ f_off f < f_cap f /\ f_cap f <= 65539.
-Proof. intros chunks f out Hb H. exact (opcf_reachable_bounds chunks f out Hb H). Qed.
+Proof. intros reg chunks f out Hb H. exact (opcf_reachable_bounds reg chunks f out Hb H). Qed.
 Print Assumptions c10_opc_bounds.
 
 (* ACN over TCP (IncomingStreamTransport with a consume-all inflator): for every byte stream and
@@ -170,11 +181,11 @@ Theorem c10_schedule_robe : forall es,
 Proof. exact robe_sched. Qed.
 Print Assumptions c10_schedule_robe.
 
-Theorem c10_schedule_opc : forall es, bytes_ok (arrived es) = true ->
-  (exists f pend out, run_sched fstate f_recv (f_init, [], []) es = Some (f, pend, out) /\
-     (pend = [] -> out = ref_opc (arrived es))) /\
-  (exists k f out, run_sched fstate f_recv (f_init, [], []) (es ++ repeat Invoke k) = Some (f, [], out) /\
-     out = ref_opc (arrived es)).
+Theorem c10_schedule_opc : forall (reg : N -> bool) es, bytes_ok (arrived es) = true ->
+  (exists f pend out, run_sched fstate (f_recv reg) (f_init, [], []) es = Some (f, pend, out) /\
+     (pend = [] -> out = ref_opc reg (arrived es))) /\
+  (exists k f out, run_sched fstate (f_recv reg) (f_init, [], []) (es ++ repeat Invoke k) = Some (f, [], out) /\
+     out = ref_opc reg (arrived es)).
 Proof. exact opcf_sched. Qed.
 Print Assumptions c10_schedule_opc.
 
@@ -217,9 +228,11 @@ Example c10_robe_example :
          [(7, [1; 2]); (8, [])].
 Proof. vm_compute; reflexivity. Qed.
 Example c10_opc_example :
-  feed f_recv f_init [[1; 0; 0; 2; 9; 8; 2; 0; 0]; [1; 7; 3]] =
-    Done {| f_rdata := [3]; f_off := 1; f_exp := None; f_cap := 516 |} [(256, [9; 8]); (512, [7])].
-Proof. vm_compute; reflexivity. Qed.
+  let reg := fun ch => negb (ch =? 9) in
+  feed (f_recv reg) f_init [[1; 0; 0; 2; 9; 8; 9; 0; 0; 1; 4; 2; 0; 0]; [1; 7; 3]] =
+    Done {| f_rdata := [3]; f_off := 1; f_exp := None; f_cap := 516 |} [(256, [9; 8]); (512, [7])] /\
+  ref_opc reg [1; 0; 0; 2; 9; 8; 9; 0; 0; 1; 4; 2; 0; 0; 1; 7; 3] = [(256, [9; 8]); (512, [7])].
+Proof. split; vm_compute; reflexivity. Qed.
 Example c10_acn_example :
   feed a_recv a_init [[65; 83; 67; 45; 69; 49; 46]; [49; 55; 0; 0; 0; 0; 0; 0; 5; 0; 3]; [9; 0; 2; 65]] =
     Done (fst (run1 a_step a_init [65; 83; 67; 45; 69; 49; 46; 49; 55; 0; 0; 0; 0; 0; 0; 5; 0; 3; 9; 0; 2; 65]))
